@@ -108,6 +108,26 @@ def pathOfFrames (w : Int) : List Frame → List Ref
 def pointerOf (w : Int) (hist : List Tok) : Option (List Ref) :=
   (runFrames [.arr 0] hist).map (pathOfFrames w)
 
+/-- Path of the innermost open container `C` itself (frames innermost first). -/
+def containerOfFrames : List Frame → List Ref
+  | [] => []
+  | _ :: below => below.dropLast.reverse.filterMap Frame.current
+
+/-- The acceptable continuations `next` of `ptr(C)`: the member name read last, or the index of the element read
+last / being read. -/
+def Frame.nexts : Frame → List Ref
+  | .arr n => (if n = 0 then [] else [.index (n - 1)]) ++ [.index n]
+  | .obj last _ => (last.map .name).toList
+
+/-- The `next`s of the innermost open container (none at top level: top-level values have the empty pointer). -/
+def nextsOfFrames : List Frame → List Ref
+  | f :: _ :: _ => f.nexts
+  | _ => []
+
+/-- `ptr(C)` and the acceptable `next`s after a token history. -/
+def containerOf (hist : List Tok) : Option (List Ref × List Ref) :=
+  (runFrames [.arr 0] hist).map fun fs => (containerOfFrames fs, nextsOfFrames fs)
+
 /-- The pointer text of a path. -/
 def renderPath (p : List Ref) : Bytes := render (p.map Ref.token)
 
